@@ -26,33 +26,46 @@ def sample_with_ref(rng, fixed):
     edge = rng.random() < 0.3
     f = (lambda: rng.choice([-1, 1]) * (1 - rng.random() * 1e-3)) if edge else (lambda: rng.uniform(-1, 1))
     return {"lat": cpr_spec.sample_lat_in_band(rng, k), "lon": rng.choice([rng.uniform(-540, 540), -180.0, 0.0, 179.99999]),
-            "dlat_ref": f() * (d_lat / 2 - d_lat / 131072), "dlon_ref": f() * (d_lon / 2 - d_lon / 131072)}
+            "dlat_ref": f() * (d_lat / 2 - d_lat / 131072), "dlon_ref": f() * (d_lon / 2 - d_lon / 131072),
+            "dlat_ref2": f() * (d_lat / 2 - d_lat / 131072), "dlon_ref2": f() * (d_lon / 2 - d_lon / 131072)}
 
 
 @harness("C04", sampler=sample_with_ref,
          inputs={"lat": RealRange(-90, 90), "lon": RealRange(-540, 540), "dlat_ref": RealRange(-4, 4),
-                 "dlon_ref": RealRange(-200, 200), "i": Choice(0, 1), "k": Choice(*range(1, 60), quick=[1, 2, 3, 4, 17, 30, 44, 57, 58, 59]),
+                 "dlon_ref": RealRange(-200, 200), "dlat_ref2": RealRange(-4, 4), "dlon_ref2": RealRange(-200, 200),
+                 "i": Choice(0, 1), "k": Choice(*range(1, 60), quick=[1, 2, 3, 4, 17, 30, 44, 57, 58, 59]),
                  "surface": Choice(False, True), "head": BinStr(32), "tc": IntRange(0, 31), "mid": BinStr(16),
                  "parity": BinStr(24), "case": BinStr(28)},
          functions=[D5 + "airborne_position_with_ref", D6 + "surface_position_with_ref"],
          body_of=[D5 + "airborne_position_with_ref", D6 + "surface_position_with_ref"], idealised=True,
          timeout={"quick": 60000, "thorough": 600000})
-def position_with_ref_decode(lat, lon, dlat_ref, dlon_ref, i, k, surface, head, tc, mid, parity, case):
+def position_with_ref_decode(lat, lon, dlat_ref, dlon_ref, dlat_ref2, dlon_ref2, i, k, surface, head, tc, mid, parity,
+                             case):
+    # transmit side: the DO-260B encoder applied to the true position (lat, lon)
     yz, rlat = cpr_spec.encode_lat(lat, i, surface)
     assume(nl_spec.NL(rlat) == k)
     xz, rlon = cpr_spec.encode_lon(lon, k, i, surface)
     d_lat = cpr_spec.dlat(i, surface)
     d_lon = cpr_spec.dlon(k, i, surface)
-    # reference closer than half a zone, by one quantisation step (closed neighbourhood)
+    # two references closer than half a zone, by one quantisation step (closed neighbourhood)
     assume(-(d_lat / 2 - d_lat / 131072) <= dlat_ref and dlat_ref <= d_lat / 2 - d_lat / 131072)
     assume(-(d_lon / 2 - d_lon / 131072) <= dlon_ref and dlon_ref <= d_lon / 2 - d_lon / 131072)
+    assume(-(d_lat / 2 - d_lat / 131072) <= dlat_ref2 and dlat_ref2 <= d_lat / 2 - d_lat / 131072)
+    assume(-(d_lon / 2 - d_lon / 131072) <= dlon_ref2 and dlon_ref2 <= d_lon / 2 - d_lon / 131072)
     msg = position_frame(head, tc, mid, i, yz, xz, parity, case)
     if surface:
         r = B06.surface_position_with_ref(msg, lat + dlat_ref, lon + dlon_ref)
+        r2 = B06.surface_position_with_ref(msg, lat + dlat_ref2, lon + dlon_ref2)
     else:
         r = B05.airborne_position_with_ref(msg, lat + dlat_ref, lon + dlon_ref)
-    assert close(r[0], rlat), "latitude == encoded latitude Rlat wherever the reference lies in the half-zone box"
-    assert close(r[1], rlon), "longitude == encoded longitude Rlon (same 360-degree representation as the reference)"
+        r2 = B05.airborne_position_with_ref(msg, lat + dlat_ref2, lon + dlon_ref2)
+    s_lat = cpr_spec.lat_step(i, surface)
+    assert -s_lat <= r[0] - lat and r[0] - lat <= s_lat, \
+        "latitude within one quantisation step of the encoded position, wherever the reference lies in the half-zone box"
+    assert cpr_spec.within_mod360(r[1], lon, cpr_spec.lon_step(k, i, surface)), \
+        "longitude within one quantisation step of the encoded position (modulo 360)"
+    assert close(r2[0], r[0]) and close(r2[1], r[1]), \
+        "the result does not change when the reference moves inside the half-zone neighbourhood"
 
 
 def ap_ref_opaque(msg, lat_ref, lon_ref):
